@@ -280,6 +280,7 @@ and tref (s : Sexp.t) : tref =
   | "ta", [a; d; sc; t] -> TPlain (TRDbSchemaTableAlias (hx d, hx sc, hx t, hx a))
   | "tsub", [q; a] -> TSubQuery (select q, hx a)
   | "tvalues", a :: rows -> TValues (List.map (fun r -> List.map value (args r)) rows, hx a)
+  | "tfn", f :: a :: fargs -> TFunc (func_named (atom f), List.map (fun x -> (false, expr x)) fargs, hx a)
   | _ -> failwith "tref"
 
 and order (s : Sexp.t) : order =
